@@ -297,3 +297,57 @@ func H_C12_independent() {
 	vxrt.Assert(onlyA == alone[0], "C12:config-A-result-independent-of-concurrent-config-B")
 	vxrt.Assert(len(both) == len(alone[0])+len(alone[1]), "C12:config-B-result-independent-of-concurrent-config-A")
 }
+
+// H_C12_mismatch: a call through a shared Config that fails (its stored value differs) or passes
+// leaves the Config as it was, and the next call through it - any entry point, for a slot
+// recorded earlier through an identical Config - still finds its snapshot where it was recorded
+// and passes silently. File names with a directory part included.
+func H_C12_mismatch() {
+	vxrt.CI(false)
+	vxrt.YAMLAssume(true)
+	vxrt.EnvFixed("NO_COLOR", "1")
+	dir := vxrt.Dir()
+	opts := []func(*Config){Dir(dir)}
+	switch vxrt.Choice("filename", 3) {
+	case 1:
+		opts = append(opts, Filename("fn"))
+	case 2:
+		opts = append(opts, Filename("a/b"))
+	}
+	c1 := WithConfig(opts...)
+	snap := cfgSnap(c1)
+	apiA, apiB := vxrt.Choice("api-A", 5), vxrt.Choice("api-B", 5)
+	firstMismatches := vxrt.Bool("first-call-mismatches")
+	// (with a Filename, standalone files are numbered per file name, not per test: two tests using
+	// the same standalone entry point would share the numbering - not what is examined here)
+	vxrt.Assume(!(len(opts) > 1 && apiA >= 3 && apiA == apiB))
+	// both slots are recorded through an identical Config first
+	fresh := WithConfig(opts...)
+	t0a, t0b := newT("TestA"), newT("TestB")
+	if firstMismatches {
+		callAPI(fresh, apiA, t0a, `"w"`)
+	} else {
+		callAPI(fresh, apiA, t0a, `"v"`)
+	}
+	callAPI(fresh, apiB, t0b, `"v"`)
+	t0a.end()
+	t0b.end()
+	vxrt.Assert(len(t0a.errors)+len(t0b.errors) == 0, "setup:recorded")
+	before := dumpDir(dir)
+	freezeCfg(c1, "shared Config c1")
+	tA := newT("TestA")
+	callAPI(c1, apiA, tA, `"v"`)
+	tA.end()
+	if firstMismatches {
+		vxrt.Assert(len(tA.errors) == 1 && len(tA.logs) == 0, "C12:first-call-behaves-as-through-a-fresh-config")
+	} else {
+		vxrt.Assert(len(tA.errors) == 0 && len(tA.logs) == 0, "C12:first-call-behaves-as-through-a-fresh-config")
+	}
+	vxrt.Assert(cfgEqual(*c1, snap), "C12:config-unchanged-by-call")
+	tB := newT("TestB")
+	callAPI(c1, apiB, tB, `"v"`)
+	tB.end()
+	vxrt.Assert(len(tB.errors) == 0 && len(tB.logs) == 0, "C12:later-call-independent-of-earlier-calls")
+	vxrt.Assert(dumpDir(dir) == before, "C12:nothing-written-by-replays")
+	vxrt.Assert(cfgEqual(*c1, snap), "C12:config-unchanged-by-call")
+}
